@@ -126,7 +126,7 @@ def run(ctx):
         ms = []
         for i, pf in enumerate(postfixes):
             ph, fb, rg = cases[i % len(cases)]
-            m = driver.make_mineral(I, ph, fb, rg, 2 + i, label=f"s{i}", nsnap=2 + (i % 2), symbolic_n=False)
+            m = driver.make_mineral(I, ph, fb, rg, 4 + i, label=f"s{i}", nsnap=(2, 3, 7)[i % 3], symbolic_n=False)
             ms.append(m)
             e0 = len(store.events)
             try:
@@ -210,18 +210,19 @@ def run(ctx):
                 ctx.ob("C17.reject", f"save:{kind}:postfix={pf}", r.exc.typename == "ValueError" and not store.events,
                        f"raised {r.exc.typename}; I/O events before the raise: {store.events}", sloc)
     for how in ("load", "from_file"):
-        store = Store()
-        I = make_interp(ctx, store)
-        try:
-            if how == "load":
-                m = driver.make_mineral(I, "olivine", "olivine_A", "matrix_dislocation", 2, label="c", nsnap=1, symbolic_n=False)
-                I.call(I.getattr(m, "load"), ("/data/c.txt",))
-            else:
-                I.call(I.getattr(public(ctx, I, "pydrex.minerals.Mineral"), "from_file"), ("/data/c.npy",))
-            ctx.ob("C17.reject", f"{how}:non-npz", False, "non-NPZ filename accepted", lloc)
-        except RaiseSig as r:
-            ctx.ob("C17.reject", f"{how}:non-npz", r.exc.typename == "ValueError" and not store.events, f"raised {r.exc.typename}; events {store.events}", lloc)
-    ctx.floor("C17.reject", 6)
+        for bad in ("/data/c.txt", "/data/c.npy", "/data/c.npz.bak", "/data/npz", "/data/c.npz.scsv"):
+            store = Store()
+            I = make_interp(ctx, store)
+            try:
+                if how == "load":
+                    m = driver.make_mineral(I, "olivine", "olivine_A", "matrix_dislocation", 2, label="c", nsnap=1, symbolic_n=False)
+                    I.call(I.getattr(m, "load"), (bad,))
+                else:
+                    I.call(I.getattr(public(ctx, I, "pydrex.minerals.Mineral"), "from_file"), (bad,))
+                ctx.ob("C17.reject", f"{how}:{bad.split('/')[-1]}", False, "non-NPZ filename accepted", lloc)
+            except RaiseSig as r:
+                ctx.ob("C17.reject", f"{how}:{bad.split('/')[-1]}", r.exc.typename == "ValueError" and not store.events, f"raised {r.exc.typename}; events {store.events}", lloc)
+    ctx.floor("C17.reject", 12)
 
 
 RULES = {
